@@ -51,6 +51,17 @@ class _Subst(ast.NodeTransformer):
         return n
 
 
+class _SubstMany(ast.NodeTransformer):
+    """name -> a copy of a side-effect-free atom (constant or name)"""
+    def __init__(self, m):
+        self.m = m
+
+    def visit_Name(self, n):
+        if n.id in self.m and isinstance(n.ctx, ast.Load):
+            return ast.copy_location(copy.deepcopy(self.m[n.id]), n)
+        return n
+
+
 def _uses_as_attr_name(body, name):
     for st in body:
         for n in ast.walk(st):
@@ -76,6 +87,77 @@ def _rebinds(body, name):
 class Desugar(ast.NodeTransformer):
     def __init__(self):
         self.count = 0
+        self._cls = []          # enclosing classes: {name: tuple node} of class-level literal tuples never rebound in the module
+        self._tree = None
+
+    def visit_Module(self, node):
+        self._tree = node
+        self.generic_visit(node)
+        return node
+
+    def visit_ClassDef(self, node):
+        consts = {}
+        for st in node.body:
+            if isinstance(st, ast.Assign) and len(st.targets) == 1 and isinstance(st.targets[0], ast.Name) and isinstance(st.value, ast.Tuple) \
+                    and st.value.elts and all(isinstance(e, ast.Constant) for e in st.value.elts):
+                consts[st.targets[0].id] = st.value
+        if consts and self._tree is not None:
+            for n in ast.walk(self._tree):
+                if isinstance(n, ast.Attribute) and n.attr in consts and isinstance(n.ctx, (ast.Store, ast.Del)):
+                    consts.pop(n.attr, None)
+            cnt = {}
+            for st in node.body:
+                for t in (st.targets if isinstance(st, ast.Assign) else [getattr(st, "target", None)] if isinstance(st, (ast.AugAssign, ast.AnnAssign)) else []):
+                    if isinstance(t, ast.Name):
+                        cnt[t.id] = cnt.get(t.id, 0) + 1
+            for k in [k for k in consts if cnt.get(k, 0) != 1]:
+                consts.pop(k)
+        self._cls.append((node.name, consts))
+        try:
+            self.generic_visit(node)
+        finally:
+            self._cls.pop()
+        return node
+
+    def _seq(self, e):
+        """the elements of a statically known finite sequence expression, or None"""
+        if isinstance(e, (ast.Tuple, ast.List)) and e.elts and all(isinstance(x, (ast.Constant, ast.Name)) for x in e.elts):
+            return list(e.elts)
+        if isinstance(e, ast.Attribute) and isinstance(e.value, ast.Name) and self._cls:
+            cname, consts = self._cls[-1]
+            if e.value.id in ("self", "cls", cname) and e.attr in consts:
+                return list(consts[e.attr].elts)
+        return None
+
+    def _unroll_zip(self, node):
+        """for a, b in zip(<finite tuple>, <finite tuple>): body  ->  the body once per pair (all elements atoms)"""
+        it = node.iter
+        if node.orelse:
+            return None
+        if isinstance(it, ast.Call) and isinstance(it.func, ast.Name) and it.func.id == "zip" and not it.keywords and len(it.args) >= 2 \
+                and isinstance(node.target, ast.Tuple) and len(node.target.elts) == len(it.args) and all(isinstance(t, ast.Name) for t in node.target.elts):
+            seqs = [self._seq(a) for a in it.args]
+            names = [t.id for t in node.target.elts]
+        elif isinstance(node.target, ast.Name) and not isinstance(it, (ast.Tuple, ast.List)):
+            seqs = [self._seq(it)]
+            names = [node.target.id]
+        else:
+            return None
+        if any(s is None for s in seqs) or len({len(s) for s in seqs}) != 1:
+            return None
+        if not any(_uses_as_attr_name(node.body, n) for n in names) or any(_rebinds(node.body, n) for n in names):
+            return None
+        # a substituted Name must not be assigned in the body
+        stored = {n.id for st in node.body for n in ast.walk(st) if isinstance(n, ast.Name) and isinstance(n.ctx, (ast.Store, ast.Del))}
+        for s in seqs:
+            if any(isinstance(x, ast.Name) and x.id in stored for x in s):
+                return None
+        out = []
+        for k in range(len(seqs[0])):
+            m = {n: s[k] for n, s in zip(names, seqs)}
+            for st in node.body:
+                out.append(_SubstMany(m).visit(copy.deepcopy(st)))
+        return out
 
     # ---- statements
     def _stmts(self, stmts):
@@ -97,6 +179,10 @@ class Desugar(ast.NodeTransformer):
                 for st in node.body:
                     st2 = _Subst(node.target.id, e.value).visit(copy.deepcopy(st))
                     out.append(st2)
+            self.count += 1
+            return self._stmts(out)
+        out = self._unroll_zip(node)
+        if out is not None:
             self.count += 1
             return self._stmts(out)
         self.generic_visit(node)
